@@ -115,7 +115,7 @@ NAT = _tok('<NaT>')
 
 def is_missing(x):
     """NaN, None or NaT (the library's notion of a missing value)."""
-    if x is None:
+    if x is None or x is NAN or x is NAT:
         return True
     if isinstance(x, (float, np.floating)):
         return math.isnan(x)
